@@ -107,26 +107,21 @@ Proof.
 Qed.
 
 (* comparison with the hand-written reference tables *)
-Lemma status_phrase_rfc2616 (s : N) : s < status_count -> In (status_code s, status_phrase s) Txt.rfc2616_phrases.
+(* every variant's reason phrase is the one registered for its code (RFC 7231 section 6 / the IANA registry) *)
+Lemma status_phrase_rfc7231 (s : N) : s < status_count -> In (status_code s, status_phrase s) Txt.rfc7231_phrases.
 Proof.
   intros Hs. apply in_table_In.
-  exact (status_sweep (fun s => in_table (status_code s) (status_phrase s) Txt.rfc2616_phrases) eq_refl s Hs).
+  exact (status_sweep (fun s => in_table (status_code s) (status_phrase s) Txt.rfc7231_phrases) eq_refl s Hs).
 Qed.
 
-Lemma status_phrase_rfc7231 (s : N) : s < status_count ->
-  (In (status_code s, status_phrase s) Txt.rfc7231_phrases /\ ~ In (status_code s) rfc2616_only_codes) \/
-  (In (status_code s) rfc2616_only_codes /\ ~ In (status_code s, status_phrase s) Txt.rfc7231_phrases).
+(* and it is the RFC 2616 phrase as well, except for the three codes RFC 7231 renamed *)
+Lemma status_phrase_rfc2616 (s : N) : s < status_count ->
+  In (status_code s, status_phrase s) Txt.rfc2616_phrases \/ In (status_code s) rfc2616_only_codes.
 Proof.
   intros Hs.
-  pose proof (status_sweep (fun s => if memN (status_code s) rfc2616_only_codes
-                                     then negb (memN (status_code s) (map fst (filter (fun e => beq (snd e) (status_phrase s)) Txt.rfc7231_phrases)))
-                                     else in_table (status_code s) (status_phrase s) Txt.rfc7231_phrases) eq_refl s Hs) as H.
-  cbv beta in H. destruct (memN (status_code s) rfc2616_only_codes) eqn:M.
-  - right. split; [apply memN_In, M|]. intros Hin. apply negb_true_iff in H.
-    assert (memN (status_code s) (map fst (filter (fun e => beq (snd e) (status_phrase s)) Txt.rfc7231_phrases)) = true); [|congruence].
-    apply memN_In. apply in_map_iff. exists (status_code s, status_phrase s). split; [reflexivity|].
-    apply filter_In. split; [exact Hin|]. cbn [snd]. apply beq_refl.
-  - left. split; [apply in_table_In, H|]. intros Hin. apply memN_In in Hin. congruence.
+  pose proof (status_sweep (fun s => in_table (status_code s) (status_phrase s) Txt.rfc2616_phrases
+                                     || memN (status_code s) rfc2616_only_codes) eq_refl s Hs) as H.
+  cbv beta in H. apply orb_true_iff in H. destruct H as [H|H]; [left; apply in_table_In, H|right; apply memN_In, H].
 Qed.
 
 (* coverage: which codes of each RFC table have no variant *)
@@ -152,7 +147,7 @@ Proof.
 Qed.
 
 Lemma status_registered (s : N) : s < status_count -> registered_phrase (status_code s) (status_phrase s).
-Proof. intros Hs. right. apply status_phrase_rfc2616, Hs. Qed.
+Proof. intros Hs. left. apply status_phrase_rfc7231, Hs. Qed.
 
 (* ================= 2. header names, stable sort ================= *)
 Lemma hname_eqb_eq (a b : hname) : hname_eqb a b = true <-> a = b.
@@ -1067,10 +1062,9 @@ Lemma status_tables_lemma :
   (forall s1 s2, s1 < status_count -> s2 < status_count -> status_code s1 = status_code s2 -> s1 = s2) /\
   (forall c s, status_of_code c = Some s -> s < status_count /\ status_code s = c) /\
   (forall s, s < status_count -> 100 <= status_code s /\ status_code s <= 599) /\
-  (forall s, s < status_count -> In (status_code s, status_phrase s) Txt.rfc2616_phrases) /\
+  (forall s, s < status_count -> In (status_code s, status_phrase s) Txt.rfc7231_phrases) /\
   (forall s, s < status_count ->
-     (In (status_code s, status_phrase s) Txt.rfc7231_phrases /\ ~ In (status_code s) [413; 414; 416]) \/
-     (In (status_code s) [413; 414; 416] /\ ~ In (status_code s, status_phrase s) Txt.rfc7231_phrases)) /\
+     In (status_code s, status_phrase s) Txt.rfc2616_phrases \/ In (status_code s) [413; 414; 416]) /\
   (forall c ph, In (c, ph) Txt.rfc2616_phrases -> (exists s, s < status_count /\ status_code s = c) \/ c = 402) /\
   (forall c ph, In (c, ph) Txt.rfc7231_phrases -> (exists s, s < status_count /\ status_code s = c) \/ c = 402 \/ c = 426).
 Proof.
@@ -1080,19 +1074,17 @@ Proof.
     apply in_seq in Hk. lia. }
   destruct status_coverage as (C1 & C2 & _ & _).
   split; [exact status_of_code_code|]. split; [exact status_code_inj|]. split; [exact status_of_code_sound|].
-  split; [exact status_code_range|]. split; [exact status_phrase_rfc2616|]. split; [exact status_phrase_rfc7231|].
+  split; [exact status_code_range|]. split; [exact status_phrase_rfc7231|]. split; [exact status_phrase_rfc2616|].
   split.
   - intros c ph Hin. destruct (C1 c ph Hin) as [H|H]; [left; apply Hmod, H|right; exact H].
   - intros c ph Hin. destruct (C2 c ph Hin) as [H|H]; [left; apply Hmod, H|right; exact H].
 Qed.
 
-(* the three phrases that are not the RFC 7231 / IANA ones, as concrete witnesses *)
-Lemma status_phrases_rfc7231_refuted :
-  exists s, s < status_count /\ status_code s = 413 /\ ~ In (status_code s, status_phrase s) Txt.rfc7231_phrases.
-Proof.
-  exists 28. split; [reflexivity|]. split; [reflexivity|]. intros Hin. apply In_in_table in Hin.
-  vm_compute in Hin. discriminate.
-Qed.
+(* before fix F38 the phrases of 413 / 414 / 416 were the RFC 2616 ones ("Request Entity Too Large", ...): with those
+   the registry comparison fails, as this witness on the old phrase shows *)
+Lemma status_phrases_old_rfc7231_refuted :
+  ~ In (413, [82; 101; 113; 117; 101; 115; 116; 32; 69; 110; 116; 105; 116; 121; 32; 84; 111; 111; 32; 76; 97; 114; 103; 101] (* "Request Entity Too Large" *)) Txt.rfc7231_phrases.
+Proof. intros Hin. apply In_in_table in Hin. vm_compute in Hin. discriminate. Qed.
 
 Lemma hsort_stable_lemma (l : headers) :
   Permutation (hsort l) l /\
